@@ -1,71 +1,11 @@
 (* Function definitions refine source-level calls (C02): parameter binding, the frame of mangled locals, the return
-   registers.  The body of a function is a program of Sem/LoopPreserve.v (assignments, prints, conditionals, loops, calls of
-   earlier functions through the oracle) followed by one return statement. *)
+   registers.  The body of a function is a program of Sem.LoopPreserve.v (assignments, prints, conditionals, loops, calls of
+   earlier functions through the oracle); it ends with a return statement - at the end or inside if / else-if / else
+   branches - or falls off its end when it returns nothing. *)
 From Verif Require Import Base.Bytestr Base.DecFacts Front.Ast Front.AstInd Back.BashLines Back.Transpile Back.BashConv Back.BashFacts
   Back.NameFacts Sem.Src Sem.SrcFacts Sem.BashSem Sem.ExprPreserve Sem.Words Sem.StmtPreserve Sem.FlatSem Sem.IfPreserve Sem.FlatLoop Sem.LoopPreserve.
 From Coq Require Import ZArith Lia.
 Open Scope N_scope.
-
-(* ---- the return statement ---- *)
-Fixpoint rv_lines (vs : list atom) (i : nat) : list line :=
-  match vs with [] => [] | v :: r => LAssign (rv_name i) (RAtom v) :: rv_lines r (S i) end.
-
-Lemma rv_name_inj i j : rv_name i = rv_name j -> i = j.
-Proof. unfold rv_name. intro H. apply app_inv_head in H. unfold dec_nat in H. apply dec_N_inj in H. apply Nat2N.inj in H. exact H. Qed.
-
-Lemma rv_fold_cext : forall vs s i,
-  cext s (fst (fold_left (fun (acc : bstate * nat) v => let '(st, i) := acc in (add_line (LAssign (var_name st (rv_name i) true) (RAtom v)) st, S i)) vs (s, i)))
-       (rv_lines vs i).
-Proof.
-  induction vs as [|v r IH]; intros s i; cbn [fold_left rv_lines fst]; [apply cext_refl|].
-  rewrite var_name_global. change (LAssign (rv_name i) (RAtom v) :: rv_lines r (S i)) with ([LAssign (rv_name i) (RAtom v)] ++ rv_lines r (S i)).
-  eapply cext_trans; [apply cext_line|apply IH].
-Qed.
-
-Lemma rv_exec : forall vs i b, (forall a j, In a vs -> a <> ARef (rv_name j)) ->
-  exists b', exec_lines b (rv_lines vs i) = Some b' /\
-             (forall j v, nth_error vs j = Some v -> sh_get (rv_name (i + j)) b' = atom_text b v) /\
-             (forall n, (forall j, (i <= j)%nat -> n <> rv_name j) -> sh_get n b' = sh_get n b).
-Proof.
-  induction vs as [|v r IH]; intros i b Hno.
-  - exists b. split; [reflexivity|]. split; [intros j w H; destruct j; discriminate|intros; reflexivity].
-  - cbn [rv_lines exec_lines exec_line eval_rhs].
-    set (b1 := sh_set (rv_name i) (atom_text b v) b).
-    assert (forall a, In a r -> atom_text b1 a = atom_text b a) as Hsame.
-    { intros a Ha. destruct a as [t|n]; [reflexivity|]. cbn [atom_text]. unfold b1. apply sh_get_set_other.
-      intro Heq. apply (Hno (ARef n) i (or_intror Ha)). rewrite Heq. reflexivity. }
-    destruct (IH (S i) b1 (fun a j Ha => Hno a j (or_intror Ha))) as (b' & Hx & Hv & Hf).
-    exists b'. split; [exact Hx|]. split.
-    + intros j w Hj. destruct j as [|j].
-      * cbn [nth_error] in Hj. inversion Hj; subst w. rewrite Nat.add_0_r. rewrite Hf.
-        -- unfold b1. apply sh_get_set_same.
-        -- intros j Hj0 Heq. apply rv_name_inj in Heq. lia.
-      * cbn [nth_error] in Hj. replace (i + S j)%nat with (S i + j)%nat by lia. rewrite (Hv j w Hj). apply Hsame. exact (nth_error_In _ _ Hj).
-    + intros n Hn. rewrite (Hf n (fun j Hj => Hn j ltac:(lia))). unfold b1. apply sh_get_set_other. apply Hn. apply le_n.
-Qed.
-
-Lemma rv_lines_no_echo vs : forall i, forallb no_echo (rv_lines vs i) = true.
-Proof. induction vs as [|v r IH]; intro i; [reflexivity|]. cbn [rv_lines forallb]. rewrite IH. reflexivity. Qed.
-
-Lemma return_decompose es s u s' :
-  t_stmt bash_conv (SReturn es) s = TOk u s' ->
-  exists vs s1, args_fix es s = TOk vs s1 /\ cext s1 s' (rv_lines vs 0 ++ [LReturn]).
-Proof.
-  intro H. cbn [t_stmt] in H. mb H as vs s1 H1 H2. exists vs, s1. split; [exact H1|].
-  assert (cv_return bstate atom bash_conv vs s1 =
-          TOk tt (add_line LReturn (fst (fold_left (fun (acc : bstate * nat) v => let '(st, i) := acc in (add_line (LAssign (var_name st (rv_name i) true) (RAtom v)) st, S i)) vs (s1, 0%nat))))) as E by reflexivity.
-  rewrite E in H2. inversion H2; subst. eapply cext_trans; [apply rv_fold_cext|apply cext_line].
-Qed.
-
-Lemma map_nth_agree {A B C} (f : A -> C) (g : B -> C) : forall (l : list A) (l' : list B) i v,
-  map f l = map g l' -> nth_error l' i = Some v -> exists a, nth_error l i = Some a /\ f a = g v.
-Proof.
-  induction l as [|a r IH]; intros l' i v H Hn; destruct l' as [|w r']; try discriminate.
-  - destruct i; discriminate.
-  - cbn [map] in H. injection H as H0 Hr. destruct i as [|i].
-    + cbn [nth_error] in *. inversion Hn; subst. exists a. split; [reflexivity|exact H0].
-    + cbn [nth_error] in *. exact (IH r' i v Hr Hn).
-Qed.
 
 Section Body.
 Variable call : nat -> bytes -> list bytes -> shenv -> option (shenv * bytes).
@@ -75,66 +15,26 @@ Variables klo mlo : nat.
 Variable scall : list var -> bytes -> list value -> senv -> list value -> senv -> bytes -> Prop.
 Hypothesis call_ok : call_refines call klo mlo scall.
 
-Lemma return_step XS sg es s u s' b rvals :
-  forallb pure es = true -> t_stmt bash_conv (SReturn es) s = TOk u s' -> pevals sg es = Some rvals -> env_ok sg ->
-  (forall e, In e es -> side XS e) -> ctx_ok XS sg b s -> fresh_flags klo mlo XS s ->
-  exists X b', cext s s' X /\ ctx_ok XS sg b' s' /\
-     (forall n, (forall k, n <> helper_name s k) -> (forall i, n <> rv_name i) -> sh_get n b' = sh_get n b) /\
-     (forall i v, nth_error rvals i = Some v -> sh_get (rv_name i) b' = text v) /\
-     forall L rest, lruns call pos b L (X ++ rest) (b', []).
-Proof.
-  intros Hp Ht Hv Henv Hes [Cf Hrep Hhy Hinj] Hfl.
-  destruct (return_decompose es s u s' Ht) as (vs & s1 & Ha & E2).
-  pose proof (args_as_pv _ _ _ _ Hp Ha) as Ha'.
-  destruct (print_values es sg s vs s1 b rvals XS Hp Ha' Hv Henv Hes Cf Hrep Hhy) as (l1 & b1 & E1 & M1 & R1 & V1 & F1 & S1 & Hok).
-  assert (cext s s1 l1) as C1 by (apply cext_of_ext; [exact E1|exact (pv_mono _ _ _ _ Ha')]).
-  assert (forall a j, In a vs -> a <> ARef (rv_name j)) as Hno.
-  { intros a j Ha0 Heq. rewrite Forall_forall in S1. specialize (S1 a Ha0). subst a. cbn [atom_stable] in S1.
-    destruct S1 as [(x & Hx & Hn)|(k & _ & Hn)].
-    - exact (proj1 (proj2 Hfl) x j Hx (eq_sym Hn)).
-    - exact (rv_not_helper s j k Hn). }
-  destruct (rv_exec vs 0 b1 Hno) as (b2 & R2 & V2 & F2).
-  exists (l1 ++ rv_lines vs 0 ++ [LReturn]), b2.
-  split; [eapply cext_trans; [exact C1|exact E2]|].
-  split.
-  { apply (ctx_cext XS sg b2 s s' _ (cext_trans _ _ _ _ _ C1 E2)). constructor; [exact Cf| |exact Hhy|exact Hinj].
-    intros x w Hx Hw. rewrite F2; [|intros j _; exact (proj1 (proj2 Hfl) x j Hx)].
-    rewrite F1; [exact (Hrep x w Hx Hw)|]. intros k _ Heq. exact (Hhy x k Hx Heq). }
-  split.
-  { intros n Hh Hr. rewrite F2; [|intros j _; apply Hr]. apply F1. intros k _. apply Hh. }
-  split.
-  { intros i v Hi. destruct (map_nth_agree (atom_text b1) text vs rvals i v V1 Hi) as (a & Hna & Hav).
-    rewrite <- Hav. exact (V2 i a Hna). }
-  intros L rest. rewrite app_assoc, <- app_assoc.
-  assert (exec_outs b (l1 ++ rv_lines vs 0) = Some (b2, [])) as RX.
-  { apply exec_outs_silent.
-    - rewrite forallb_app, (exec_lines_no_echo l1 b b1 R1), rv_lines_no_echo. reflexivity.
-    - rewrite exec_lines_app, R1. exact R2. }
-  replace (b2, []) with (prepend [] (b2, ([] : bytes))) by reflexivity.
-  apply (lruns_straight call pos (l1 ++ rv_lines vs 0) b b2 [] L _ _ RX).
-  exists 1%nat. reflexivity.
-Qed.
+(* how a function body ends: with return e1, .., en, or - a function without results - by reaching its end *)
+Definition ret_of (g : sig) (rvals : list value) : Prop := g = SR rvals \/ (g = SN /\ rvals = []).
 
-(* the body of a function and its return statement, from the environment the parameters were bound in *)
-Lemma body_refines XS sg0 body sgl o es rvals sf u sb u2 sr b0 :
-  J scall XS (Prog body) sg0 sgl o SN -> go_fix body sf = TOk u sb -> frag2_all body = true ->
-  forallb pure es = true -> t_stmt bash_conv (SReturn es) sb = TOk u2 sr -> pevals sgl es = Some rvals ->
-  (forall e, In e es -> side XS e) -> env_ok sg0 -> ctx_ok XS sg0 b0 sf -> fresh_flags klo mlo XS sf ->
+(* the body of a function up to its closing brace, from the environment the parameters were bound in *)
+Lemma body_refines XS sg0 body sgl o g rvals sf u sr b0 :
+  J scall XS (Prog body) sg0 sgl o g -> ret_of g rvals -> go_fix body sf = TOk u sr -> frag2_all body = true ->
+  env_ok sg0 -> ctx_ok XS sg0 b0 sf -> fresh_flags klo mlo XS sf ->
   exists X bF, cext sf sr X /\ ctx_ok XS sgl bF sr /\ untouched klo mlo XS sf sr b0 bF /\
     (forall i v, nth_error rvals i = Some v -> sh_get (rv_name i) bF = text v) /\
-    forall rest, lruns call pos b0 [] (X ++ rest) (bF, o).
+    forall rest, lruns call pos b0 [] (X ++ [LClose] ++ rest) (bF, o).
 Proof.
-  intros HJ Ht Hf Hp Hr Hv Hes Henv Hc Hfl.
-  destruct (J_sim call pos call_mono klo mlo scall call_ok XS (Prog body) sg0 sgl o SN HJ Henv sf u sb b0 Ht Hf Henv Hc Hfl) as (X & b1 & Ex & Cc & U & Hk).
-  pose proof (J_env _ _ _ _ _ _ _ HJ Henv) as Henvl.
-  destruct (return_step XS sgl es sb u2 sr b1 rvals Hp Hr Hv Henvl Hes Cc (fresh_cext _ _ _ _ _ _ Ex Hfl)) as (Xr & bF & Er & CF & FF & VF & HkF).
-  exists (X ++ Xr), bF. split; [eapply cext_trans; eassumption|]. split; [exact CF|].
-  split.
-  { apply (untouched_trans klo mlo XS sf sb sr X b0 b1 bF Ex (cx_mono _ _ _ Er) U).
-    intros n _ Hh _ _ Hrv _. apply FF; assumption. }
-  split; [exact VF|].
-  intro rest. rewrite <- app_assoc. specialize (Hk [] (Xr ++ rest) (bF, [])). cbn [after] in Hk.
-  specialize (Hk (HkF [] rest)). unfold prepend in Hk. cbn [fst snd] in Hk. rewrite app_nil_r in Hk. exact Hk.
+  intros HJ Hg Ht Hf Henv Hc Hfl.
+  destruct (J_sim call pos call_mono klo mlo scall call_ok XS (Prog body) sg0 sgl o g HJ Henv sf u sr b0 Ht Hf Henv Hc Hfl) as (X & bF & Ex & Cc & U & Rg & Hk).
+  exists X, bF. split; [exact Ex|]. split; [exact Cc|]. split; [exact U|].
+  destruct Hg as [->|[-> ->]].
+  - split; [exact Rg|]. intro rest. specialize (Hk [] ([LClose] ++ rest) (bF, []) eq_refl).
+    unfold prepend in Hk. cbn [fst snd] in Hk. rewrite app_nil_r in Hk. exact Hk.
+  - split; [intros i v Hi; destruct i; discriminate|]. intro rest.
+    assert (after call pos SN bF [] ([LClose] ++ rest) (bF, [])) as Ha by (cbn [after]; exists 1%nat; reflexivity).
+    specialize (Hk [] ([LClose] ++ rest) (bF, []) Ha). unfold prepend in Hk. cbn [fst snd] in Hk. rewrite app_nil_r in Hk. exact Hk.
 Qed.
 End Body.
 
@@ -201,22 +101,21 @@ Hypothesis call_ok : call_refines call klo_f mlo_f scall.
 (* the caller *)
 Variables klo_c mlo_c : nat.
 
-Lemma func_refines XSf sf sb sr params body es u u2 XS s b sg vals sgl o rvals :
+Lemma func_refines XSf sf sr params body u XS s b sg vals sgl o g rvals :
   (0 < b_funcs sf)%nat -> (b_func_counter sf < mlo_c)%nat -> (mlo_f <= mlo_c)%nat -> (b_for_counter sr <= klo_c)%nat ->
   (forall x, In x XSf -> var_fine sf x) -> hygienic sf XSf -> names_inj sf XSf -> fresh_flags klo_f mlo_f XSf sf ->
   (forall p, In p params -> v_global p = false /\ In p XSf) ->
   (forall x, v_global x = true -> (In x XS <-> In x XSf)) ->
-  go_fix body sf = TOk u sb -> frag2_all body = true -> t_stmt bash_conv (SReturn es) sb = TOk u2 sr ->
-  forallb pure es = true -> (forall e, In e es -> side XSf e) ->
+  go_fix body sf = TOk u sr -> frag2_all body = true ->
   length vals = length params -> env_ok (bind params vals (globals_of sg)) ->
-  J scall XSf (Prog body) (bind params vals (globals_of sg)) sgl o SN -> pevals sgl es = Some rvals ->
+  J scall XSf (Prog body) (bind params vals (globals_of sg)) sgl o g -> ret_of g rvals ->
   ctx_ok XS sg b s -> fresh_flags klo_c mlo_c XS s ->
   exists X bF, cext sf sr X /\
-    (forall rest, lruns call (map text vals) b [] (param_lines (b_func_counter sf) (map v_name params) 1 ++ X ++ rest) (bF, o)) /\
+    (forall rest, lruns call (map text vals) b [] (param_lines (b_func_counter sf) (map v_name params) 1 ++ X ++ [LClose] ++ rest) (bF, o)) /\
     ctx_ok XS (leave sg sgl) bF s /\ untouched klo_c mlo_c XS s s b bF /\
     (forall i v, nth_error rvals i = Some v -> sh_get (rv_name i) bF = text v).
 Proof.
-  intros Hfun Hcf Hml Hkl Hfine Hhy Hinj Hflf Hps Hag Hbody Hfrag Hret Hpure Hsides Hlen Henv0 HJ Hrv [Cf Crep Chy Cinj] Hflc.
+  intros Hfun Hcf Hml Hkl Hfine Hhy Hinj Hflf Hps Hag Hbody Hfrag Hlen Henv0 HJ Hrv [Cf Crep Chy Cinj] Hflc.
   set (cf := b_func_counter sf) in *. set (pos := map text vals).
   set (b0 := bindsh cf (map v_name params) 0 pos b).
   (* the frame at entry *)
@@ -225,7 +124,7 @@ Proof.
     rewrite (user_name_global_any sf x Hg), <- (user_name_global_any s x Hg). exact (Crep x w (proj2 (Hag x Hg) Hx) Hw). }
   assert (ctx_ok XSf (bind params vals (globals_of sg)) b0 sf) as Hc0.
   { constructor; [exact Hfine| |exact Hhy|exact Hinj]. unfold b0, cf. apply (bind_represents XSf sf Hfun Hinj); [exact Hlen|exact Hps|reflexivity|exact Hrep0]. }
-  destruct (body_refines call pos call_mono klo_f mlo_f scall call_ok XSf _ body sgl o es rvals sf u sb u2 sr b0 HJ Hbody Hfrag Hpure Hret Hrv Hsides Henv0 Hc0 Hflf)
+  destruct (body_refines call pos call_mono klo_f mlo_f scall call_ok XSf _ body sgl o g rvals sf u sr b0 HJ Hrv Hbody Hfrag Henv0 Hc0 Hflf)
     as (X & bF & Ex & CF & UF & VF & Hk).
   exists X, bF. split; [exact Ex|].
   split; [intro rest; apply params_run; exact (Hk rest)|].
@@ -263,27 +162,27 @@ Qed.
 End Func.
 
 (* ---- the functions of a script ---- *)
-(* a definition  func name(params) { body; return rets }  with the variables it uses (globals, parameters, locals) and
-   the converter states at which its body was translated: after the header, after the body, after the return *)
+(* a definition  func name(params) { body }  with the variables it uses (globals, parameters, locals) and the converter
+   states at which its body was translated: after the header and after the body *)
 Record fdef := mkFdef {
-  fd_name : bytes; fd_params : list var; fd_body : list stmt; fd_rets : list expr; fd_vars : list var;
-  fd_sf : bstate; fd_sb : bstate; fd_sr : bstate
+  fd_name : bytes; fd_params : list var; fd_body : list stmt; fd_vars : list var;
+  fd_sf : bstate; fd_sr : bstate
 }.
 Definition fd_num (F : fdef) : nat := b_func_counter (fd_sf F).
 
 (* the source side of calls: a call of F binds the arguments to the parameters in a frame that sees the globals only,
-   runs the body (whose calls go one level down, to functions defined before F), evaluates the returned expressions;
+   runs the body (whose calls go one level down, to functions defined before F) up to a return statement or its end;
    the caller gets its own locals back and the globals as the function left them *)
 Fixpoint scall_at (defs : list fdef) (d : nat) (klo mlo : nat) (XS : list var) (f : bytes) (vals : list value) (sg : senv)
                   (rvals : list value) (sg1 : senv) (o : bytes) : Prop :=
   match d with
   | O => False
-  | S d' => exists F sgl,
+  | S d' => exists F sgl g,
       In F defs /\ fd_name F = f /\ (fd_num F < mlo)%nat /\ (b_for_counter (fd_sr F) <= klo)%nat /\
       (forall x, v_global x = true -> (In x XS <-> In x (fd_vars F))) /\ length vals = length (fd_params F) /\
       env_ok (bind (fd_params F) vals (globals_of sg)) /\
-      J (scall_at defs d' (b_for_counter (fd_sf F)) (fd_num F)) (fd_vars F) (Prog (fd_body F)) (bind (fd_params F) vals (globals_of sg)) sgl o SN /\
-      pevals sgl (fd_rets F) = Some rvals /\ sg1 = leave sg sgl
+      J (scall_at defs d' (b_for_counter (fd_sf F)) (fd_num F)) (fd_vars F) (Prog (fd_body F)) (bind (fd_params F) vals (globals_of sg)) sgl o g /\
+      ret_of g rvals /\ sg1 = leave sg sgl
   end.
 
 (* the definition was translated as the converter does and stands in the script *)
@@ -292,23 +191,21 @@ Definition fun_ok (script : list line) (F : fdef) : Prop :=
   (forall x, In x (fd_vars F) -> var_fine (fd_sf F) x) /\ hygienic (fd_sf F) (fd_vars F) /\ names_inj (fd_sf F) (fd_vars F) /\
   fresh_flags (b_for_counter (fd_sf F)) (fd_num F) (fd_vars F) (fd_sf F) /\
   (forall p, In p (fd_params F) -> v_global p = false /\ In p (fd_vars F)) /\
-  go_fix (fd_body F) (fd_sf F) = TOk tt (fd_sb F) /\ frag2_all (fd_body F) = true /\
-  t_stmt bash_conv (SReturn (fd_rets F)) (fd_sb F) = TOk tt (fd_sr F) /\
-  forallb pure (fd_rets F) = true /\ (forall e, In e (fd_rets F) -> side (fd_vars F) e) /\
+  go_fix (fd_body F) (fd_sf F) = TOk tt (fd_sr F) /\ frag2_all (fd_body F) = true /\
   exists X tail, b_code (fd_sr F) = b_code (fd_sf F) ++ X /\
-                 find_def (fd_name F) script = Some (param_lines (fd_num F) (map v_name (fd_params F)) 1 ++ X ++ tail).
+                 find_def (fd_name F) script = Some (param_lines (fd_num F) (map v_name (fd_params F)) 1 ++ X ++ [LClose] ++ tail).
 
 (* The functions of the script refine the source calls, at every nesting depth of calls. *)
 Theorem calls_refined defs script : (forall F, In F defs -> fun_ok script F) ->
   forall d klo mlo, call_refines (call_of script d) klo mlo (scall_at defs d klo mlo).
 Proof.
   intro Hok. induction d as [|d IH]; intros klo mlo XS f vals sg rvals sg1 o b s Hs Henv Hc Hfl; [destruct Hs|].
-  destruct Hs as (F & sgl & HF & Hname & Hnum & Hhi & Hag & Hlen & Henv0 & HJ & Hrv & ->).
-  destruct (Hok F HF) as (Hfun & Hfine & Hhy & Hinj & Hflf & Hps & Hbody & Hfrag & Hret & Hpure & Hsides & X0 & tail & Hcode & Hfind).
+  destruct Hs as (F & sgl & g & HF & Hname & Hnum & Hhi & Hag & Hlen & Henv0 & HJ & Hrv & ->).
+  destruct (Hok F HF) as (Hfun & Hfine & Hhy & Hinj & Hflf & Hps & Hbody & Hfrag & X0 & tail & Hcode & Hfind).
   destruct (func_refines (call_of script d) (call_of_mono script d) (b_for_counter (fd_sf F)) (fd_num F)
               (scall_at defs d (b_for_counter (fd_sf F)) (fd_num F)) (IH _ _) klo mlo
-              (fd_vars F) (fd_sf F) (fd_sb F) (fd_sr F) (fd_params F) (fd_body F) (fd_rets F) tt tt XS s b sg vals sgl o rvals
-              Hfun Hnum (Nat.lt_le_incl _ _ Hnum) Hhi Hfine Hhy Hinj Hflf Hps Hag Hbody Hfrag Hret Hpure Hsides Hlen Henv0 HJ Hrv Hc Hfl)
+              (fd_vars F) (fd_sf F) (fd_sr F) (fd_params F) (fd_body F) tt XS s b sg vals sgl o g rvals
+              Hfun Hnum (Nat.lt_le_incl _ _ Hnum) Hhi Hfine Hhy Hinj Hflf Hps Hag Hbody Hfrag Hlen Henv0 HJ Hrv Hc Hfl)
     as (X & bF & Ex & Hrun & CF & UF & VF).
   assert (X0 = X) as -> by exact (code_same_cext _ _ _ _ Hcode Ex).
   exists bF. split; [|split; [exact CF|split; [exact UF|exact VF]]].
@@ -368,38 +265,25 @@ Proof.
     destruct (beq name f) eqn:B; [|exact E]. apply beq_eq in B. exfalso. exact (Hn name (or_introl eq_refl) B).
 Qed.
 
-Lemma args_e3 : forall es s vs s', args_fix es s = TOk vs s' -> emits3 s s'.
-Proof.
-  induction es as [|e r IH]; intros s vs s' H; [mr H; apply e3_refl|].
-  cbn [args_fix] in H. mb H as va s1 H1 H2. mb H2 as vr s2 H2 H3. mr H3.
-  eapply e3_trans; [exact (e3_expr _ _ _ _ _ H1)|exact (IH _ _ _ H2)].
-Qed.
-
-(* func f(params) rets { body; return es }: the states of fun_ok, the function's number, and its lines in any script that
-   contains the translated code and has no earlier definition of the same name *)
-Theorem definition_in_script f rets params body es pub s0 s0' later :
-  t_stmt bash_conv (SFunc f rets params (body ++ [SReturn es]) pub) s0 = TOk tt s0' -> frag2_all body = true ->
+(* func f(params) rets { body }: the states of fun_ok, the function's number, and its lines in any script that contains the
+   translated code and has no earlier definition of the same name *)
+Theorem definition_in_script f rets params x body pub s0 s0' later :
+  t_stmt bash_conv (SFunc f rets params (x :: body) pub) s0 = TOk tt s0' -> frag2_all (x :: body) = true ->
   (forall n, In (LFuncOpen n) (b_code s0) -> n <> f) ->
   let sf := cv_func_start bstate atom bash_conv f (map v_name params) rets s0 in
-  exists sb sr X,
-    go_fix body sf = TOk tt sb /\ t_stmt bash_conv (SReturn es) sb = TOk tt sr /\ b_code sr = b_code sf ++ X /\
+  exists sr X,
+    go_fix (x :: body) sf = TOk tt sr /\ b_code sr = b_code sf ++ X /\
     b_funcs sf = S (b_funcs s0) /\ b_func_counter sf = S (b_func_counter s0) /\ b_for_counter sf = b_for_counter s0 /\
     b_for_counter s0' = b_for_counter sr /\
-    find_def f (b_code s0' ++ later) = Some (param_lines (b_func_counter sf) (map v_name params) 1 ++ X ++ ([LClose] ++ later)).
+    find_def f (b_code s0' ++ later) = Some (param_lines (b_func_counter sf) (map v_name params) 1 ++ X ++ [LClose] ++ later).
 Proof.
   intros H Hfrag Hno. cbv zeta. set (sf := cv_func_start bstate atom bash_conv f (map v_name params) rets s0).
   destruct (func_start_lines f (map v_name params) rets s0) as (A & B & C & D). fold sf in A, B, C, D.
-  cbn [t_stmt] in H. mb H as u0 s1 H0 H1. mu H0. subst s1. fold sf in H1. mb H1 as u1 sr H1 H2.
-  assert (go_fix (body ++ [SReturn es]) sf = TOk u1 sr) as Hg by (destruct body; exact H1).
-  destruct (go_fix_app body [SReturn es] sf u1 sr Hg) as (sb & Hb & Hr).
-  cbn [go_fix] in Hr. mb Hr as u2 sr' Hr1 Hr2. mr Hr2. destruct u2.
-  destruct (go_e3 body (all_e3 body) Hfrag sf tt sb Hb) as (X1 & E1 & _ & _).
-  destruct (return_decompose es sb tt sr Hr1) as (vs & sx & Ha & E3).
-  destruct (args_e3 es sb vs sx Ha) as (X2 & E2 & _ & _).
-  pose proof (cext_trans _ _ _ _ _ E1 (cext_trans _ _ _ _ _ E2 E3)) as E.
-  set (X := X1 ++ X2 ++ rv_lines vs 0 ++ [LReturn]) in *.
+  cbn [t_stmt] in H. mb H as u0 s1 H0 H1. mu H0. subst s1. fold sf in H1. mb H1 as u1 sr H1 H2. destruct u1.
+  change (go_fix (x :: body) sf = TOk tt sr) in H1.
+  destruct (go_e3 (x :: body) (all_e3 _) Hfrag sf tt sr H1) as (X & E & _ & _).
   rewrite bash_func_end in H2. pose proof (cx_funcs _ _ _ E) as Hfs. rewrite B in Hfs. rewrite Hfs in H2. cbv zeta in H2. inversion H2; subst s0'; clear H2.
-  exists sb, sr, X. split; [exact Hb|]. split; [exact Hr1|]. split; [exact (cx_code _ _ _ E)|].
+  exists sr, X. split; [exact H1|]. split; [exact (cx_code _ _ _ E)|].
   split; [exact B|]. split; [exact C|]. split; [exact D|]. split; [reflexivity|].
   cbn [add_line b_code]. rewrite (cx_code _ _ _ E), A, C. rewrite <- !app_assoc. cbn [app].
   exact (find_def_app f (b_code s0) _ Hno).
